@@ -26,7 +26,8 @@ WINDOWS = (32768, 32769, 32777, 39999, 40000, 40001, 65536, 100000, 1 << 21, 1 <
 PACKETS = (4096, 4097, 32768, 65536, (1 << 32) - 1)
 RULE = ("Each run: direction, window from %r and max packet from %r (requested by the receiver's side), N up to 4x window "
         "(capped at 400 KB) split between stdout and stderr over 1-3 writer tasks, readers with random sizes, latency "
-        "0-100 ms; 1/3 of runs add EXTENDED_DATA with type codes 0..5 from the sending peer." % (WINDOWS, PACKETS))
+        "0-100 ms; 1/3 of runs add EXTENDED_DATA with type codes 0..5 from the sending peer; 1/3 of runs pre-empt tasks "
+        "at bytecode level inside channel.py (right before stores to shared state)." % (WINDOWS, PACKETS))
 COMPONENTS = {"real": ["both Transports/Channels unmodified, public API; discarded-type EXTENDED_DATA is emitted by the real "
                        "sending Transport's packetizer"], "simulated": ["socket", "clock", "scheduling", "entropy"]}
 ASSUMPTIONS = ["bound for completion: 120 virtual seconds (RTT <= 0.2 s, at most a few hundred window round trips)"]
@@ -34,11 +35,20 @@ LIMIT = 120.0
 
 
 def sim_kw(seed):
-    return {"max_steps": 8_000_000, "max_time": 7200.0}
+    kw = {"max_steps": 8_000_000, "max_time": 7200.0}
+    if seed % 3 == 0:
+        # bytecode-level pre-emption inside channel.py: a switch may happen right before a store to shared
+        # state, i.e. inside statements such as `self.in_window_sofar += n`
+        import paramiko.channel as ch_mod
+        kw.update(trace_files={ch_mod.__file__}, trace_opcodes=True)
+    return kw
 
 
 def scenario(sim):
     sim.p_switch = (0.02, 0.1, 0.3)[sim.choose(3)]
+    if sim.trace_opcodes:
+        sim.p_preempt_store = (0.002, 0.01, 0.05)[sim.choose(3)]
+        sim.max_preempt = (2, 4, 8)[sim.choose(3)]
     lat = (0.0, 0.005, 0.1)[sim.choose(3)]
     W = WINDOWS[sim.choose(len(WINDOWS))]
     P = PACKETS[sim.choose(len(PACKETS))]
